@@ -440,7 +440,9 @@ class FakeObserver(object):
         self.only.append(event)
 
 
-def make_subscription(maxq, maxfl):
+def make_subscription(maxq, maxfl, prefill=(), catch_up=False):
+    """a real Subscription (or a subclass with small limits) on a logger whose buffers were filled by `prefill`
+    (ops ["size", fac, lvl, n] / ["msg", fac, lvl, cid]; facility id 0 = None, k = "f<k>") BEFORE subscribing"""
     setup_clock()
     if maxq is None:
         cls = publish.Subscription
@@ -450,20 +452,40 @@ def make_subscription(maxq, maxfl):
             MAX_IN_FLIGHT = maxfl
         cls = Small
     L = log.FoolscapLogger()
+    fac = lambda k: None if k == 0 else "f%d" % k
+    for o in prefill:
+        if o[0] == "size":
+            L.set_buffer_size(o[2], o[3], fac(o[1]))
+        else:
+            kw = dict(level=o[2], cid=o[3])
+            if o[1]:
+                kw["facility"] = fac(o[1])
+            L.msg("m", **kw)
+    E.turn()
     obs = FakeObserver()
     s = cls(obs, L)
-    s.subscribe(False)
+    s.subscribe(catch_up)
     return L, obs, s
 
 
-def run_subscription(maxq, maxfl, ops, rng):
-    """ops: list of 'S'/'T'/'A'/'N'; -> per-step observations + final delivered/queue ids"""
-    L, obs, s = make_subscription(maxq, maxfl)
+def run_subscription(maxq, maxfl, ops, rng, prefill=(), catch_up=False):
+    """ops: list of 'S'/'T'/'A'/'N'; -> observation right after subscribe(), per-step observations, final
+    delivered/queue ids, the catch-up batch handed to callRemoteOnly"""
+    L, obs, s = make_subscription(maxq, maxfl, prefill, catch_up)
     pending = []
     seen = 0
     steps = []
-    cid = 0
+    cid = len([o for o in prefill if o[0] == "msg"])
+    first_cid = cid
     rets = []
+
+    def see():
+        nonlocal seen
+        while seen < len(obs.calls):
+            pending.append(obs.calls[seen][1])
+            seen += 1
+        return [len(s.queue), s.in_flight, bool(s.marked_for_sending), bool(s.subscribed), len(obs.calls)]
+    at_subscribe = see()
     for o in ops:
         if o == "S":
             rets.append(L.msg("m", cid=cid))
@@ -477,15 +499,14 @@ def run_subscription(maxq, maxfl, ops, rng):
                     d.callback(None)
                 else:
                     d.errback(failure.Failure(RuntimeError("subscriber failed")))
-        while seen < len(obs.calls):
-            pending.append(obs.calls[seen][1])
-            seen += 1
-        steps.append([len(s.queue), s.in_flight, bool(s.marked_for_sending), bool(s.subscribed), len(obs.calls)])
+        steps.append(see())
     delivered = [e["cid"] for e, d in obs.calls]
     queue = [e["cid"] for e in s.queue]
     for d in pending:          # do not leave unfired Deferreds with errbacks around
         d.addErrback(lambda f: None)
-    return dict(steps=steps, delivered=delivered, queue=queue, emitted=cid, rets=rets,
+    return dict(steps=steps, delivered=delivered, queue=queue, emitted=cid, first_cid=first_cid, rets=rets,
+                at_subscribe=at_subscribe, only=[e["cid"] for e in obs.only],
+                buffered=sorted(e["cid"] for e in L.get_buffered_events() if e["cid"] < first_cid),
                 limits=(s.MAX_QUEUE_SIZE, s.MAX_IN_FLIGHT))
 
 
